@@ -162,6 +162,30 @@ Unframe(tr, w) == IF tr = 0 THEN Unslip(w, <<>>)
                        IN IF ~p.ok \/ Len(w) - p.used < p.len THEN [st |-> "eof", frame |-> <<>>]
                           ELSE [st |-> "ok", frame |-> SubSeq(w, p.used + 1, p.used + p.len)]
 
+(* ------------------------------------------------------------------ the emit entry points (event "emit")
+   args = <<kind, tr, mem16, seq0>> \o rest;  kind 1 read8, 2 read16 : ahi alo n
+                                               kind 3 write8, 4 write16 : ahi alo n <payload octets>
+                                               kind 5 acknowledgement  : reqtype seq ahi alo n <payload octets>
+                                               kind 10+code error response : reqtype seq ahi alo [vhi vlo]
+                                               kind 30 meta message    : meta
+   observation: rc seq_after <wire> -7 <what the library's own receiver reports for it>                        *)
+EmittedFrameOf(args) ==
+    LET kind == args[1]
+        tr == args[2]
+        mem16 == args[3] = 1
+        seq0 == args[4]
+        rest == Drop(args, 4)
+    IN CASE kind \in {1, 2} -> Request(tr, FALSE, kind = 2, seq0, <<rest[1], rest[2]>>, rest[3], <<>>)
+         [] kind \in {3, 4} -> Request(tr, TRUE, kind = 4, seq0, <<rest[1], rest[2]>>, rest[3], Drop(rest, 3))
+         [] kind = 5 -> AckResponse(tr, rest[1], mem16, rest[2], <<rest[3], rest[4]>>, rest[5], Drop(rest, 5))
+         [] kind = 30 -> MetaMessage(tr, rest[1])
+         [] OTHER -> ErrResponse(tr, rest[1], kind - 10, rest[2], <<rest[3], rest[4]>>,
+                                 IF Len(rest) >= 6 THEN <<rest[5], rest[6]>> ELSE <<0, 0>>)
+PeerView(o) == LET f == Fields(o)
+               IN <<0, 0, f.type, f.opts, f.meta, f.sq>> \o f.addr \o f.bs \o PayloadOf(o)
+EmitObs(args) == LET fr == EmittedFrameOf(args)
+                 IN <<0, IF args[1] \in 1..4 THEN (args[4] + 1) % 65536 ELSE args[4]>> \o Wire(args[2], fr) \o <<-7>> \o PeerView(fr)
+
 (* ------------------------------------------------------------------ one receive/process/free cycle *)
 RECURSIVE FlatW(_, _)
 FlatW(tr, fs) == IF fs = <<>> THEN <<>> ELSE Wire(tr, Head(fs)) \o FlatW(tr, Tail(fs))
